@@ -168,6 +168,51 @@ func runC17(tier string, seed uint64) {
 		list()
 		st.Close()
 	}
+	// ... and when the bucket comes to exist on first use (auto-bucket option): any request that names a
+	// bucket makes it, under the same rule — a name create-bucket refuses must not come to exist this way
+	for _, base := range []string{"mem", "bolt", "fsmem"} {
+		kind := base + "-auto"
+		st := newStore(base)
+		h := newServer(st.Backend, gofakes3.WithAutoBucket(true))
+		emit("c17", "reset", kind)
+		touch := func(name string) {
+			if name == "" || strings.ContainsAny(name, "/?#") || strings.Trim(name, "/") != name {
+				return
+			}
+			r := do(h, Req{Method: "GET", Path: "/" + pathEscape(name)})
+			emit("c17", "touch", kind, hs(name), strconv.Itoa(r.Status), hs(errCode(r.Body)), boolField(r.Panic != ""))
+			stat(fmt.Sprintf("touch-%s-%d", kind, r.Status))
+		}
+		c17Enumerate(3, touch)
+		for _, s := range special {
+			touch(s)
+		}
+		// other requests that name a bucket: an object read, a bucket sub-resource, an upload
+		for _, name := range []string{"Bad_Name", "ab", "a_b", "ABC", "abc..def", "good-name", "192.168.1.1"} {
+			if gofakes3.ValidateBucketName(name) == nil {
+				touch(name)
+			}
+			for _, rq := range []Req{{Method: "GET", Path: "/" + name + "/k"}, {Method: "GET", Path: "/" + name + "?versioning"},
+				{Method: "PUT", Path: "/" + name + "/k", Body: []byte("x")}, {Method: "HEAD", Path: "/" + name}} {
+				r := do(h, rq)
+				if gofakes3.ValidateBucketName(name) != nil && r.Status < 400 {
+					emit("c17", "touch", kind, hs(name), strconv.Itoa(r.Status), hs(errCode(r.Body)), boolField(r.Panic != ""))
+				}
+			}
+		}
+		// the request without a bucket in its path must not make a bucket with the empty name
+		do(h, Req{Method: "GET", Path: "/?versioning"})
+		do(h, Req{Method: "GET", Path: "/?uploads"})
+		r := do(h, Req{Method: "GET", Path: "/"})
+		names := xmlAll(string(r.Body), "Name")
+		sort.Strings(names)
+		var hexed []string
+		for _, nm := range names {
+			hexed = append(hexed, hs(nm))
+		}
+		emit("c17", "list", kind, strconv.Itoa(r.Status), strings.Join(hexed, ","))
+		st.Close()
+	}
 	// ... and when the bucket name arrives as the first label of the Host header (host-bucket-base
 	// and host-bucket servers, memory backend): the same decision, on the name as it was sent
 	for _, mode := range []string{"hostbase", "host"} {
